@@ -160,7 +160,11 @@ async fn execute_multi_command_pipeline<S: Runtime + 'static>(
     let mut pids = Vec::new();
     while let Some(command) = commands.next() {
         let has_next = commands.len() > 0; // TODO ExactSizeIterator::is_empty
-        shift_or_fail(env, &mut pipes, has_next).await?;
+        if let Break(divert) = shift_or_fail(env, &mut pipes, has_next).await {
+            // The pipe left from the previous command must not stay open.
+            pipes.close_all(env);
+            return Break(divert);
+        }
 
         let child_pipes = pipes;
         let start_result = Config::new()
